@@ -61,6 +61,10 @@ def split_hmac_input(data):
 
 
 def run(ctx):
+    # no hidden state: what this property is about keeps nothing at module level between calls (memo tables keyed by less than
+    # the value depends on, caches of the outside world, counters) -- a verdict on one call must hold for every later call
+    from .. import rules as _rules
+    _rules.check_hidden_state(ctx, 'C09.9', ['bits.bips.bip32.CKDpriv', 'bits.bips.bip32.CKDpub', 'bits.bips.bip32.to_master_key', 'bits.bips.bip32.serialized_extended_key', 'bits.bips.bip32.deserialized_extended_key', 'bits.wallet.hd.derive_from_path', 'bits.wallet.hd.get_xpub'])
     R = ctx.R
     ev = ctx.evaluator(opaque={SMUL, PADD})
     # ---- tables
